@@ -49,6 +49,9 @@ func init() {
 	gen.RegisterOp("c02", "populate", func(_ *gen.Ctx, raw json.RawMessage) any {
 		return c02Populate(gen.Into[c02PopIn](raw))
 	})
+	gen.RegisterOp("c02", "assertx", func(_ *gen.Ctx, raw json.RawMessage) any {
+		return c02AssertX(gen.Into[c02AssertIn](raw))
+	})
 	gen.RegisterOp("c02", "libexpected", func(_ *gen.Ctx, raw json.RawMessage) any {
 		return c02LibExpected(gen.Into[c02LibIn](raw))
 	})
@@ -97,6 +100,8 @@ type c02TC struct {
 	Codec    int        `json:"codec,omitempty"`
 	Explicit *c02Result `json:"explicit,omitempty"`
 	XFail    bool       `json:"xfail,omitempty"`
+	// OtherCodes: other_allowed_error_codes of the test case (read by assert, never by the generator)
+	OtherCodes []int `json:"otherCodes,omitempty"`
 }
 type c02LaterDef struct {
 	At  int    `json:"at"` // index of the request message (>= 1)
@@ -125,6 +130,8 @@ type c02Result struct {
 	Trls     []c02Hdr     `json:"trls"`
 	Payloads []c02Payload `json:"payloads"`
 	Err      *c02ErrOut   `json:"err"`
+	// Status: http_status_code (explicit expected responses; results handed to assert)
+	Status *int `json:"status,omitempty"`
 }
 
 // ---- abstract -> proto ----
@@ -281,6 +288,9 @@ func c02TestCase(tc c02TC) *conformancev1.TestCase {
 		req.RequestMessages = append(req.RequestMessages, a)
 	}
 	out := &conformancev1.TestCase{Request: req}
+	for _, c := range tc.OtherCodes {
+		out.OtherAllowedErrorCodes = append(out.OtherAllowedErrorCodes, conformancev1.Code(c))
+	}
 	if tc.Explicit != nil {
 		out.ExpectedResponse = c02ResultProto(tc.Explicit, tc, req.RequestMessages)
 	}
@@ -315,6 +325,9 @@ func c02ResultProto(r *c02Result, tc c02TC, msgs []*anypb.Any) *conformancev1.Cl
 		return ri
 	}
 	out := &conformancev1.ClientResponseResult{ResponseHeaders: c02Headers(r.Hdrs), ResponseTrailers: c02Headers(r.Trls)}
+	if r.Status != nil {
+		out.HttpStatusCode = proto.Int32(int32(*r.Status))
+	}
 	for _, p := range r.Payloads {
 		out.Payloads = append(out.Payloads, &conformancev1.ConformancePayload{Data: c02Unhex(p.Data), RequestInfo: info(p.Info)})
 	}
@@ -415,6 +428,10 @@ func c02ResultOut(r *conformancev1.ClientResponseResult, ordered bool) *c02Resul
 		return nil
 	}
 	out := &c02Result{Payloads: []c02Payload{}, Err: c02ErrOutOf(r.Error, ordered)}
+	if r.HttpStatusCode != nil {
+		st := int(r.GetHttpStatusCode())
+		out.Status = &st
+	}
 	if ordered {
 		out.Hdrs, out.Trls = c02HdrsOutOrdered(r.ResponseHeaders), c02HdrsOutOrdered(r.ResponseTrailers)
 	} else {
@@ -431,14 +448,172 @@ func c02ResultOut(r *conformancev1.ClientResponseResult, ordered bool) *c02Resul
 type c02ExpectedOut struct {
 	Result *c02Result `json:"result"`
 	Err    string     `json:"err,omitempty"`
+	// other_allowed_error_codes of the test case after the call
+	OtherCodes []int `json:"otherCodes"`
+}
+
+func c02CodesOut(cs []conformancev1.Code) []int {
+	out := []int{}
+	for _, c := range cs {
+		out = append(out, int(c))
+	}
+	return out
 }
 
 func c02Expected(tc c02TC) c02ExpectedOut {
-	res, err := cc.VerifC02PopulateExpected(c02TestCase(tc))
+	def := c02TestCase(tc)
+	res, err := cc.VerifC02PopulateExpected(def)
 	if err != nil {
 		return c02ExpectedOut{Err: "error"}
 	}
-	return c02ExpectedOut{Result: c02ResultOut(res, true)}
+	return c02ExpectedOut{Result: c02ResultOut(res, true), OtherCodes: c02CodesOut(def.OtherAllowedErrorCodes)}
+}
+
+// ---- op: assertx (populateExpectedResponse, then the real assert, on the full expectation) ----
+
+// c02AssertIn: a test case (with or without an explicit expected response, its http_status_code, other
+// allowed error codes) and a client result (with or without an http_status_code)
+type c02AssertIn struct {
+	TC     c02TC      `json:"tc"`
+	Actual *c02Result `json:"actual"`
+}
+
+func c02AssertX(in c02AssertIn) map[string]any {
+	def := c02TestCase(in.TC)
+	if _, err := cc.VerifC02PopulateExpected(def); err != nil {
+		return map[string]any{"err": "error"}
+	}
+	stored := c02ResultOut(def.ExpectedResponse, true)
+	actual := c02ResultProto(in.Actual, in.TC, def.Request.RequestMessages)
+	recorded, pass, n := cc.VerifC02Assert(def, actual)
+	return map[string]any{"recorded": recorded, "pass": pass, "n": n, "stored": stored, "otherCodes": c02CodesOut(def.OtherAllowedErrorCodes)}
+}
+
+// c02FullExplicit: the case with an expected response of its own that restates what the generator
+// would derive (computed by the real generator, here, while building the input) — as it is, or with
+// one departure: the error code replaced (and the real one among / not among the other allowed codes),
+// a detail dropped or added, the message left open, an error expected where none is defined.  XFail says
+// whether the departure is one no leniency covers.  ok=false: not applicable (GET cases — the derived
+// expectation depends on the permutation's codec —, cases that already carry one, later definitions).
+func c02FullExplicit(r *gen.Rand, tc c02TC) (c02TC, bool) {
+	if tc.Explicit != nil || tc.Get || len(tc.LaterDefs) > 0 || tc.Method == "unimplemented" || tc.Method == "idempotent" {
+		return tc, false
+	}
+	t := tc
+	t.Name, t.Codec = "x", 0
+	d := c02Expected(t)
+	if d.Err != "" || d.Result == nil {
+		return tc, false
+	}
+	ex := d.Result
+	otherThan := func(code int) int {
+		c := r.Range(1, 16)
+		if c == code {
+			c = code%16 + 1
+		}
+		return c
+	}
+	codesWithout := func(code int) []int {
+		out := []int{}
+		for k := r.Intn(4); k > 0; k-- {
+			out = append(out, otherThan(code))
+		}
+		return out
+	}
+	kind := r.Intn(7)
+	if ex.Err == nil {
+		tc.OtherCodes = codesWithout(0)
+		if kind == 3 {
+			// other allowed codes never excuse a missing error
+			ex.Err = &c02ErrOut{Code: r.Range(1, 16), Details: []c02Detail{}}
+			tc.OtherCodes = append(tc.OtherCodes, r.Range(1, 16))
+			tc.XFail = true
+		}
+		tc.Explicit = ex
+		return tc, true
+	}
+	real := ex.Err.Code
+	switch kind {
+	case 0:
+		tc.OtherCodes = codesWithout(real)
+	case 1:
+		ex.Err.Code = otherThan(real)
+		tc.OtherCodes = append(codesWithout(real), real)
+		if r.Bool() {
+			tc.OtherCodes = append(tc.OtherCodes, otherThan(real))
+		}
+	case 2:
+		ex.Err.Code = otherThan(real)
+		tc.OtherCodes = codesWithout(real)
+		tc.XFail = true
+	case 3:
+		if len(ex.Err.Details) > 0 {
+			ex.Err.Details = ex.Err.Details[:len(ex.Err.Details)-1]
+		} else {
+			id := 77
+			ex.Err.Details = append(ex.Err.Details, c02Detail{Other: &id})
+		}
+		tc.OtherCodes = append(codesWithout(real), real)
+		tc.XFail = true
+	case 4:
+		ex.Err.Msg = nil
+	case 5:
+		id := 78
+		ex.Err.Details = append(ex.Err.Details, c02Detail{Other: &id})
+		tc.XFail = true
+	default:
+		tc.OtherCodes = []int{real}
+	}
+	tc.Explicit = ex
+	return tc, true
+}
+
+// c02ActualFor: a client result to hold against the case's expectation: what the generator derives for
+// the case, with its error code / details / presence, a payload and the HTTP status varied
+func c02ActualFor(r *gen.Rand, tc c02TC) *c02Result {
+	t := tc
+	t.Name, t.Explicit = "x", nil
+	if t.Method == "unimplemented" {
+		t.Method = ""
+	}
+	d := c02Expected(t)
+	a := d.Result
+	if a == nil {
+		a = &c02Result{Hdrs: []c02Hdr{}, Trls: []c02Hdr{}, Payloads: []c02Payload{}}
+	}
+	if a.Err != nil {
+		switch r.Intn(6) {
+		case 0:
+			if len(tc.OtherCodes) > 0 {
+				a.Err.Code = gen.Pick(r, tc.OtherCodes)
+			}
+		case 1:
+			a.Err.Code = r.Range(1, 16)
+		case 2:
+			if tc.Explicit != nil && tc.Explicit.Err != nil {
+				a.Err.Code = tc.Explicit.Err.Code
+			}
+		case 3:
+			if r.Chance(1, 3) {
+				a.Err = nil
+			} else if len(a.Err.Details) > 0 && r.Bool() {
+				a.Err.Details = a.Err.Details[1:]
+			}
+		}
+	} else if r.Chance(1, 6) {
+		a.Err = &c02ErrOut{Code: r.Range(1, 16), Details: []c02Detail{}}
+		if len(tc.OtherCodes) > 0 && r.Bool() {
+			a.Err.Code = gen.Pick(r, tc.OtherCodes)
+		}
+	}
+	if len(a.Payloads) > 0 && r.Chance(1, 8) {
+		a.Payloads[0].Data += "ee"
+	}
+	if r.Chance(2, 3) {
+		st := gen.Pick(r, []int{200, 400, 409, 500})
+		a.Status = &st
+	}
+	return a
 }
 
 // ---- op: libexpected (what populateExpectedResponses leaves in the library) ----
@@ -464,6 +639,7 @@ type c02LibPerm struct {
 	Service  string     `json:"service"`
 	Method   string     `json:"method"`
 	Expected *c02Result `json:"expected"`
+	OtherCodes []int    `json:"otherCodes"`
 }
 type c02LibOut struct {
 	Perms []c02LibPerm `json:"perms"`
@@ -528,7 +704,7 @@ func c02LibExpected(in c02LibIn) c02LibOut {
 	for _, p := range perms {
 		g, idx := c02CaseOf(p.Name)
 		out.Perms = append(out.Perms, c02LibPerm{Name: p.Name, Case: idx, G: g, Codec: int(p.Codec), Get: p.UseGet,
-			Service: p.Service, Method: p.Method, Expected: c02ResultOut(p.Expected, true)})
+			Service: p.Service, Method: p.Method, Expected: c02ResultOut(p.Expected, true), OtherCodes: c02CodesOut(p.OtherCodes)})
 	}
 	return out
 }
@@ -806,7 +982,8 @@ func c02SuiteJSON(cases []c02TC, get bool, getComps []int) []byte {
 		suite.TestCases = append(suite.TestCases, c02TestCase(tc))
 	}
 	b, _ := protojson.Marshal(suite)
-	return b
+	// the file is read as YAML, which does not admit a raw DEL (protojson escapes the bytes below 0x20 only)
+	return bytes.ReplaceAll(b, []byte{0x7f}, []byte(`\u007f`))
 }
 
 func c02E2E(c *gen.Ctx, in c02E2EIn) c02E2EOut {
@@ -1068,6 +1245,68 @@ func c02GenErr(r *gen.Rand) *c02Err {
 	return e
 }
 
+// c02ClassMsg: an error message with at least one character of every byte class a protocol encodes
+// differently: control bytes below 0x10 (tab, LF, CR among them), 0x10..0x1F, NUL, space, '%' (alone and
+// in front of hex digits), DEL, '+', two-, three- and four-byte UTF-8, plain ASCII — in a seeded order.
+// (gRPC / gRPC-Web percent-encode grpc-message byte by byte, Connect puts it into JSON, the reference
+// server writes both by hand when the error comes with response headers.)
+func c02ClassMsg(r *gen.Rand) string {
+	low := []string{"\t", "\n", "\r", "\x01", "\x07", "\x0b", "\x0f", "\r\n"}
+	segs := []string{
+		gen.Pick(r, low), gen.Pick(r, low),
+		gen.Pick(r, []string{"\x10", "\x1b", "\x1f"}),
+		gen.Pick(r, []string{" ", "  ", " a "}),
+		gen.Pick(r, []string{"%", "100%", "%41", "%0A", "%%", "%zz"}),
+		"\x7f",
+		gen.Pick(r, []string{"+", "a+b", "&=?#;/"}),
+		gen.Pick(r, []string{"é", "ß", "ü"}),
+		gen.Pick(r, []string{"☃", "€", "世界"}),
+		gen.Pick(r, []string{"😀", "𝄞"}),
+		gen.Pick(r, []string{"step 1 failed:", "disk", "OK", "~tilde!"}),
+	}
+	if r.Chance(1, 2) {
+		segs = append(segs, "\x00")
+	}
+	for i := len(segs) - 1; i > 0; i-- {
+		j := r.Intn(i + 1)
+		segs[i], segs[j] = segs[j], segs[i]
+	}
+	// the space class stays inside: gRPC-Web carries grpc-message in a trailer block in the body, written
+	// and parsed as header lines — a space is not percent-encoded, and optional white space around a field
+	// value is not part of it: a message that begins or ends with a space arrives without it (connect-go and
+	// grpc-go peers alike; noted in agent-notes/s2.md as a limit of the transport, outside WireLaw)
+	for i, sg := range segs {
+		if strings.HasPrefix(sg, " ") || strings.HasSuffix(sg, " ") {
+			if i == 0 || i == len(segs)-1 {
+				segs[i], segs[1] = segs[1], segs[i]
+			}
+		}
+	}
+	return strings.Join(segs, "")
+}
+
+// c02ClassErrTC: a case of the given stream type whose definition is an error WITH response headers and
+// trailers (the shape for which the reference server builds a gRPC / gRPC-Web error response by hand)
+// and an error message of every byte class; for the streaming definitions with or without responses
+// before the error
+func c02ClassErrTC(r *gen.Rand, st string) c02TC {
+	var tc c02TC
+	for try := 0; ; try++ {
+		nResp := 0
+		if st != "unary" && st != "clientStream" && r.Bool() {
+			nResp = r.Range(1, 2)
+		}
+		tc = c02GenTC(r, st, 1, nResp, true, true)
+		if tc.HasDef && len(tc.Def.Hdrs) > 0 && len(tc.Def.Trls) > 0 && tc.Def.Err != nil || try > 50 {
+			break
+		}
+	}
+	tc.LaterDefs = nil
+	m := c02ClassMsg(r)
+	tc.Def.Err.Msg = &m
+	return tc
+}
+
 func c02GenData(r *gen.Rand) string {
 	switch r.Intn(5) {
 	case 0:
@@ -1302,6 +1541,9 @@ func runC02(c *gen.Ctx) error {
 	// everything below that did not exist before the Connect GET / unimplemented / explicit-expectation
 	// extension draws from a generator of its own, so that the older streams keep their inputs per seed
 	rg := gen.NewRand(c.Seed*0x9E3779B97F4A7C15 + 0xC02)
+	// ... and so does the full-expectation extension (explicit error expectations with details, HTTP
+	// status, other allowed error codes)
+	rx := gen.NewRand(c.Seed*0x9E3779B97F4A7C15 + 0xC02E)
 	// (1b) the same function on the axes it reads besides the shape: use_get_http_method under every
 	// stream type, the permutation's codec (also unspecified / the deprecated text codec: "anything
 	// but json is proto"), service and method given, IdempotentUnary, Unimplemented (no response
@@ -1354,6 +1596,16 @@ func runC02(c *gen.Ctx) error {
 			in.Cases = append(in.Cases, c02Decorate(rg, c02RandomTC(rg, true, 0)))
 		}
 		in.Cases = append(in.Cases, c02Unimplemented(rg, rg.Chance(1, 3)))
+		// explicit expectations on error definitions (details, other allowed codes, an HTTP status)
+		for i := 0; i < 4; i++ {
+			tc, ok := c02FullExplicit(rx, c02RandomTC(rx, true, 0))
+			if ok && rx.Bool() {
+				stc := gen.Pick(rx, []int{200, 400, 409, 500})
+				tc.Explicit.Status = &stc
+			}
+			tc.XFail = false
+			in.Cases = append(in.Cases, tc)
+		}
 		for i := 0; i < 6; i++ {
 			in.GetCases = append(in.GetCases, c02GenGetTC(rg, true, true))
 		}
@@ -1371,6 +1623,41 @@ func runC02(c *gen.Ctx) error {
 			}
 		}
 		c.Do("libexpected", in)
+	}
+	// (1d) the full expectation: explicit expected responses that restate an error definition with its
+	// details (or depart from it), an http_status_code, other allowed error codes (with and without an
+	// explicit expectation) — through populateExpectedResponse alone (op expected: kept / derived,
+	// status and codes where they were) and followed by the real assert against a client result whose
+	// code, details, payload and HTTP status vary (op assertx: the verdict is `agreeX`'s).  A generator of
+	// its own again.
+	nX := 500
+	if c.Thorough() {
+		nX = 12000
+	}
+	for i := 0; i < nX; i++ {
+		st := gen.Pick(rx, c02Sts)
+		tc := c02GenTC(rx, st, rx.Intn(4), rx.Intn(4), rx.Chance(3, 5), true)
+		tc.Name = "x"
+		tc.LaterDefs = nil
+		if rx.Chance(1, 8) {
+			tc.Method, tc.HasDef = "unimplemented", false
+			tc.Explicit = &c02Result{Hdrs: []c02Hdr{}, Trls: []c02Hdr{}, Payloads: []c02Payload{}, Err: &c02ErrOut{Code: gen.Pick(rx, []int{12, 12, 13}), Details: []c02Detail{}}}
+			tc.OtherCodes = [][]int{nil, {12}, {2, 13}}[rx.Intn(3)]
+		} else if rx.Chance(3, 4) {
+			tc, _ = c02FullExplicit(rx, tc)
+		} else if rx.Bool() {
+			tc.OtherCodes = []int{rx.Range(1, 16), rx.Range(1, 16)}
+		}
+		tc.XFail = false
+		if tc.Explicit != nil && rx.Chance(1, 2) {
+			stc := gen.Pick(rx, []int{200, 400, 409, 500})
+			tc.Explicit.Status = &stc
+		}
+		if i%2 == 0 {
+			c.Do("expected", tc)
+		}
+		c.Do("assertx", c02AssertIn{TC: tc, Actual: c02ActualFor(rx, tc)})
+		c.E.Count("assertx:" + map[bool]string{true: "explicit", false: "derived"}[tc.Explicit != nil])
 	}
 	// (2) loading parseable but odd suites never crashes
 	for _, in := range c02LoadCases(r) {
@@ -1430,6 +1717,11 @@ func runC02(c *gen.Ctx) error {
 				in.Cases = append(in.Cases, c02GenTC(r, "fullDuplex", sh[0], sh[1], sh[2] == 1, false))
 			}
 			in.Cases = append(in.Cases, c02GenTC(r, "halfDuplex", 3, 0, true, false), c02GenTC(r, "clientStream", 3, 0, true, false), c02GenTC(r, "unary", 1, 1, false, false))
+			// every stream type: an error with response headers and trailers and a message of every byte
+			// class (mode client: the reference-mode reference server and the grpc-go server, all protocols)
+			for _, st := range c02Sts {
+				in.Cases = append(in.Cases, c02ClassErrTC(rx, st))
+			}
 		} else {
 			minReq := 0
 			if in.Mode == "client" || in.Mode == "grpcclient" {
@@ -1437,6 +1729,19 @@ func runC02(c *gen.Ctx) error {
 			}
 			for i := 0; i < perRun; i++ {
 				in.Cases = append(in.Cases, c02Decorate(rg, c02RandomTC(r, true, minReq)))
+			}
+			// in every run: a unary error with response headers and a message of every byte class (the
+			// reference server writes this response by hand under gRPC / gRPC-Web), and the same for one
+			// more stream type in turn
+			in.Cases = append(in.Cases, c02ClassErrTC(rx, "unary"), c02ClassErrTC(rx, c02Sts[1+k%4]))
+			// cases that state their expected response in full — an error definition restated with its
+			// details and the request info, or one departure from it; other allowed error codes that do /
+			// do not cover a wrong code: must pass / FAIL as `agreeX` says
+			for i := 0; i < 2; i++ {
+				if tc, ok := c02FullExplicit(rx, c02GenTC(rx, gen.Pick(rx, c02Sts[:]), 1, rx.Intn(3)*rx.Intn(2), true, true)); ok {
+					tc.LaterDefs = nil
+					in.Cases = append(in.Cases, tc)
+				}
 			}
 			// the unimplemented method (every peer, the gRPC ones too), now and then with a wrong expectation
 			in.Cases = append(in.Cases, c02Unimplemented(rg, k%5 == 3))
